@@ -8,7 +8,8 @@ LEVEL = 'exploration'
 SHARDS = {'quick': 4, 'thorough': 16}
 RULE = ('Hypothesis draws a table of <=8 distinct registrations (callback id from a pool of 5 so one function may be registered under '
         'several patterns; port, port mask, channel, channel mask; via add_port_callback or add_header_callback), a packet header '
-        'sequence (sub "all-headers": all 256 header bytes) and per-(callback, packet) behaviours {raise, remove self/other, add new}. '
+        'sequence (sub "all-headers": all 256 header bytes) and per-(callback, packet) behaviours {raise, remove self/other, add new, close the '
+        'link for 1-3 idle periods of the dispatcher}. '
         'The real _IncomingPacketHandler.run() executes on the harness thread against a scripted link; oracle = independent matcher '
         '(cb.port == pk.port & pmask and cb.channel == pk.channel & cmask). Non-trivial = a callback mutates the table or raises during a '
         'dispatch with >= 2 matching registrations (or, for all-headers, a table with >= 2 registrations matching one header).')
@@ -90,6 +91,28 @@ def run_dispatch(case):
             Crazyflie.remove_header_callback(cf, f, reg['port'], reg['channel'], reg['pmask'], reg['cmask'])
         model.remove(reg)
 
+    saved = {}
+
+    def close_link(idle):
+        # what close_link() does as far as the dispatcher is concerned: the link is gone; the application opens it again
+        # after `idle` of the dispatcher's idle periods
+        if cf.link is not None:
+            saved['link'], saved['idle'] = cf.link, idle
+            cf.link = None
+            out.feat('link-closed-inside-dispatch')
+
+    class _Time:
+        def sleep(self_, d):
+            saved['idle'] = saved.get('idle', 1) - 1
+            if saved['idle'] <= 0 and 'link' in saved:
+                cf.link = saved.pop('link')
+            saved['sleeps'] = saved.get('sleeps', 0) + 1
+            if saved['sleeps'] > 200:
+                raise _End()
+
+        def time(self_):
+            return 0.0
+
     def make(cbid):
         def f(pk):
             k = cur['k']
@@ -114,6 +137,8 @@ def run_dispatch(case):
                     reg = _norm(b['reg'])
                     if add(reg):
                         volatile.setdefault(k, []).append(reg)
+                elif b['action'] == 'close':
+                    close_link(b.get('idle', 1))
             if do_raise:
                 raise RuntimeError('callback %d raises on packet %d' % (cbid, k))
         return f
@@ -162,8 +187,13 @@ def run_dispatch(case):
                 remove(model[b['target'] % len(model)])
             elif b['action'] == 'add':
                 add(_norm(b['reg']))
+            elif b['action'] == 'close':
+                close_link(b.get('idle', 1))
     cf.packet_received.add_callback(all_actor)
     cf.packet_received.add_callback(lambda pk: snapshots.__setitem__(cur['k'], list(model)))
+    import cflib.crazyflie as cfmod
+    real_time = cfmod.time
+    cfmod.time = _Time()
     try:
         handler.run()
     except _End:
@@ -171,6 +201,8 @@ def run_dispatch(case):
     except BaseException as e:  # noqa
         out.fail('dispatch:loop-died', repr(e))
         return out
+    finally:
+        cfmod.time = real_time
 
     if len(all_seen) != len(packets) or any(a is not b for a, b in zip(all_seen, packets)):
         out.fail('dispatch:all-packet-callback', 'packet_received saw %d of %d packets' % (len(all_seen), len(packets)))
@@ -303,6 +335,10 @@ def _case(draw):
         else:
             b['reg'] = draw(st.one_of(_reg(), st.sampled_from(regs)))
         beh.append(b)
+    if draw(st.sampled_from([False, False, True])):
+        # the application closes the link from inside a callback (all-packet or port callback) and opens it again later
+        beh.append({'cb': draw(st.sampled_from([-1, draw(st.sampled_from(regs))['cb']])), 'packet': draw(st.integers(0, len(packets) - 1)), 'action': 'close',
+                    'idle': draw(st.integers(1, 3))})
     return {'regs': regs, 'packets': packets, 'behaviours': beh,
             'kinds': draw(st.lists(st.sampled_from(['function', 'function', 'method', 'partial', 'instance']), min_size=5, max_size=5))}
 
